@@ -171,6 +171,18 @@ def r_bitarray_kw(bs, cls, bits, ctx):
     return getattr(bs, cls)(bitarray=bitarray.bitarray('10' + bits + '011'), offset=2, length=len(bits))
 
 
+@route('bitarray_le', "bitstring.{cls}(__import__('bitarray').bitarray({bits!r}, endian='little'))")
+def r_bitarray_le(bs, cls, bits, ctx):
+    import bitarray
+    return getattr(bs, cls)(bitarray.bitarray(bits, endian='little'))
+
+
+@route('bitarray_le_kw', "bitstring.{cls}(bitarray=__import__('bitarray').bitarray({bits5!r}, endian='little'), offset=2, length={n})")
+def r_bitarray_le_kw(bs, cls, bits, ctx):
+    import bitarray
+    return getattr(bs, cls)(bitarray=bitarray.bitarray('10' + bits + '011', endian='little'), offset=2, length=len(bits))
+
+
 @route('bytesio', "bitstring.{cls}(__import__('io').BytesIO({emb3!r}), offset=3, length={n})")
 def r_bytesio(bs, cls, bits, ctx):
     p, o, n = embed(bits, 3)
